@@ -9,24 +9,54 @@ import DuneVerif.Model.C17
 set_option linter.unusedSectionVars false
 namespace DV.C17
 
-theorem IType.wrap_signed {t : IType} (h : t.signed = true) (x : Int) : t.wrap x = x := by
-  simp [IType.wrap, h]
+theorem IType.two_pow_bits {t : IType} (hb : 0 < t.bits) : (2 : Int) ^ t.bits = 2 * 2 ^ (t.bits - 1) := by
+  obtain ⟨k, hk⟩ : ∃ k, t.bits = k + 1 := ⟨t.bits - 1, by omega⟩
+  rw [hk, Nat.add_sub_cancel, Int.pow_succ, Int.mul_comm]
 
-theorem IType.arith_signed {t : IType} (h : t.signed = true) (x : Int) : t.arith x = x := by
-  simp [IType.arith, IType.wrap, h]
-
-/-- a value of an unsigned type is stored unchanged -/
-theorem IType.wrap_of_range {t : IType} (x : Int) (h0 : 0 ≤ x) (h1 : x < 2 ^ t.bits) : t.wrap x = x := by
+/-- a value of the type is stored unchanged -/
+theorem IType.wrap_of_fits {t : IType} (hb : 0 < t.bits) (x : Int) (h : t.fits x = true) : t.wrap x = x := by
+  have h2 := IType.two_pow_bits hb
+  have hp : (0 : Int) < 2 ^ (t.bits - 1) := Int.pow_pos (by decide)
   unfold IType.wrap
-  split
-  · rfl
-  · exact Int.emod_eq_of_lt h0 h1
+  by_cases hs : t.signed = true
+  · have h' : -(2 ^ (t.bits - 1) : Int) ≤ x ∧ x ≤ 2 ^ (t.bits - 1) - 1 := by
+      simpa [IType.fits, IType.lo, IType.hi, hs] using h
+    simp only [hs, if_true]
+    split
+    · rw [Int.emod_eq_of_lt (by omega) (by omega)]; omega
+    · rfl
+  · have h' : (0 : Int) ≤ x ∧ x ≤ 2 ^ t.bits - 1 := by
+      simpa [IType.fits, IType.lo, IType.hi, hs] using h
+    simp only [hs, Bool.false_eq_true, if_false]
+    exact Int.emod_eq_of_lt (by omega) (by omega)
 
-theorem IType.arith_of_range {t : IType} (x : Int) (h0 : 0 ≤ x) (h1 : x < 2 ^ t.bits) : t.arith x = x := by
+theorem IType.arith_of_fits {t : IType} (hb : 0 < t.bits) (x : Int) (h : t.fits x = true) : t.arith x = x := by
   unfold IType.arith
   split
   · rfl
-  · exact IType.wrap_of_range x h0 h1
+  · exact IType.wrap_of_fits hb x h
+
+/-- `int` and wider signed types: the model keeps the value (overflow is undefined behaviour, outside the model) -/
+theorem IType.wrap_signed {t : IType} (h : t.signed = true) (hw : 32 ≤ t.bits) (x : Int) : t.wrap x = x := by
+  have : ¬ t.bits < 32 := by omega
+  simp [IType.wrap, h, this]
+
+theorem IType.arith_signed {t : IType} (h : t.signed = true) (hw : 32 ≤ t.bits) (x : Int) : t.arith x = x := by
+  have : ¬ t.bits < 32 := by omega
+  simp [IType.arith, IType.wrap, h, this]
+
+/-- a value of an unsigned type is stored unchanged -/
+theorem IType.wrap_of_range {t : IType} (hu : t.signed = false) (x : Int) (h0 : 0 ≤ x) (h1 : x < 2 ^ t.bits) :
+    t.wrap x = x := by
+  simp only [IType.wrap, hu, Bool.false_eq_true, if_false]
+  exact Int.emod_eq_of_lt h0 h1
+
+theorem IType.arith_of_range {t : IType} (hu : t.signed = false) (x : Int) (h0 : 0 ≤ x) (h1 : x < 2 ^ t.bits) :
+    t.arith x = x := by
+  unfold IType.arith
+  split
+  · rfl
+  · exact IType.wrap_of_range hu x h0 h1
 
 /-- `0 - 1` in an unsigned type is its largest value -/
 theorem IType.wrap_neg_one {t : IType} (h : t.signed = false) : t.wrap (0 - 1) = 2 ^ t.bits - 1 := by
@@ -42,7 +72,7 @@ theorem IType.wrap_pow {t : IType} (h : t.signed = false) : t.wrap (2 ^ t.bits -
   simp [IType.wrap, h]
 
 section
-variable {K : Type} [Zero K] [Neg K] [Sub K] [Mul K] [LT K] [LE K] [DecidableLT K] [DecidableLE K] [IntCast K]
+variable {K : Type} [Zero K] [Neg K] [Sub K] [Mul K] [LT K] [LE K] [DecidableLT K] [DecidableLE K] [IntCast K] [Add K]
 
 /-- none of the integers the algorithms store for the argument `x` leaves the target type `t`: the decrement of
     `I(val)` (executed only if `T(I(val)) > val`), the values `I(val) … I(val)+2`, and 1 -/
@@ -51,43 +81,40 @@ structure NoWrap (t : IType) (tr : K → Int) (x : K) : Prop where
   up : ∀ y : Int, tr x ≤ y → y ≤ tr x + 2 → t.wrap y = y ∧ t.arith y = y
   one : t.wrap 1 = 1
 
-/-- a signed target type never reduces (overflow is outside the model) -/
-theorem noWrap_signed {t : IType} (h : t.signed = true) (tr : K → Int) (x : K) : NoWrap t tr x :=
-  ⟨fun _ => IType.wrap_signed h _, fun y _ _ => ⟨IType.wrap_signed h y, IType.arith_signed h y⟩, IType.wrap_signed h 1⟩
+/-- `int` and wider signed target types never reduce (overflow is outside the model) -/
+theorem noWrap_signed {t : IType} (h : t.signed = true) (hw : 32 ≤ t.bits) (tr : K → Int) (x : K) : NoWrap t tr x :=
+  ⟨fun _ => IType.wrap_signed h hw _, fun y _ _ => ⟨IType.wrap_signed h hw y, IType.arith_signed h hw y⟩,
+   IType.wrap_signed h hw 1⟩
+
+/-- any target type: `I(val) - 1 … I(val) + 2` and 1 are values of the type -/
+theorem noWrap_of_fits {t : IType} (hb : 0 < t.bits) (tr : K → Int) (x : K) (hlo : t.fits (tr x - 1) = true)
+    (hhi : t.fits (tr x + 2) = true) (h1 : t.fits 1 = true) : NoWrap t tr x := by
+  have hf : ∀ y : Int, tr x - 1 ≤ y → y ≤ tr x + 2 → t.fits y = true := by
+    intro y ha hb'
+    have a1 : t.lo ≤ tr x - 1 := by
+      have := hlo; simp only [IType.fits, Bool.and_eq_true, decide_eq_true_eq] at this; exact this.1
+    have a2 : tr x + 2 ≤ t.hi := by
+      have := hhi; simp only [IType.fits, Bool.and_eq_true, decide_eq_true_eq] at this; exact this.2
+    simp only [IType.fits, Bool.and_eq_true, decide_eq_true_eq]
+    constructor <;> omega
+  exact ⟨fun _ => IType.wrap_of_fits hb _ (hf _ (by omega) (by omega)),
+    fun y ha hb' => ⟨IType.wrap_of_fits hb y (hf y (by omega) hb'), IType.arith_of_fits hb y (hf y (by omega) hb')⟩,
+    IType.wrap_of_fits hb 1 h1⟩
 
 /-- an unsigned target type: the conversion `I(val)` is not above the argument (true for every non-negative argument),
     it is non-negative and two below the largest value -/
-theorem noWrap_unsigned {t : IType} (tr : K → Int) (x : K) (hle : ¬ ((tr x : Int) : K) > x) (h0 : 0 ≤ tr x)
-    (hhi : tr x + 2 < 2 ^ t.bits) : NoWrap t tr x := by
+theorem noWrap_unsigned {t : IType} (hu : t.signed = false) (tr : K → Int) (x : K) (hle : ¬ ((tr x : Int) : K) > x)
+    (h0 : 0 ≤ tr x) (hhi : tr x + 2 < 2 ^ t.bits) : NoWrap t tr x := by
   refine ⟨fun h => absurd h hle, fun y h1 h2 => ?_, ?_⟩
-  · exact ⟨IType.wrap_of_range y (by omega) (by omega), IType.arith_of_range y (by omega) (by omega)⟩
-  · exact IType.wrap_of_range 1 (by omega) (by omega)
+  · exact ⟨IType.wrap_of_range hu y (by omega) (by omega), IType.arith_of_range hu y (by omega) (by omega)⟩
+  · exact IType.wrap_of_range hu 1 (by omega) (by omega)
 
-theorem roundDownM_eq {t : IType} (s : Style) {tr : K → Int} {x : K} (e : K) (h : NoWrap t tr x) :
-    roundDownM t s tr x e = roundDown s tr x e := by
-  unfold roundDownM roundDown
-  by_cases hg : ((tr x : Int) : K) > x
-  · simp only [hg, if_true, h.dec hg]
-  · simp only [hg, if_false, (h.up (tr x + 1) (by omega) (by omega)).1]
-
-theorem roundUpM_eq {t : IType} (s : Style) {tr : K → Int} {x : K} (e : K) (h : NoWrap t tr x) :
-    roundUpM t s tr x e = roundUp s tr x e := by
-  unfold roundUpM roundUp
-  by_cases hg : ((tr x : Int) : K) > x
-  · simp only [hg, if_true, h.dec hg]
-  · simp only [hg, if_false, (h.up (tr x + 1) (by omega) (by omega)).1]
-
-/-- without wrap-around `roundM` is `round` -/
-theorem roundM_eq {t : IType} (s : Style) (rs : RStyle) {tr : K → Int} {x : K} (e : K) (h : NoWrap t tr x) :
-    roundM t s rs tr x e = round s rs tr x e := by
-  cases rs <;> simp only [roundM, round, roundDownM_eq s e h, roundUpM_eq s e h]
-
-/-- `round` stores a wrapped value only in the variable it returns, never in one it converts back to `T` (that is
-    the repair of fixes/C17_round_unsigned.patch): if `I(val)` and `I(val)+1` are values of the type, `roundM` is the
-    mathematical result reduced to the type — for an unsigned type and an argument in (-1,0): 0 stays 0, -1 becomes
-    the largest value -/
+/-- `round` applies the reduction of the type only to the value it returns (fixes/C17_round_unsigned.patch,
+    fixes/C17_round_range_end.patch: all distances are computed in `T` from `T(I(val))`): `roundM` is the mathematical
+    result reduced to the type, for EVERY argument whose integer part `I(val)` is a value of the type — beyond the largest
+    and the smallest value of the type and in (-1,0) for an unsigned type as well -/
 theorem roundM_eq_wrap {t : IType} (s : Style) (rs : RStyle) (tr : K → Int) (x e : K)
-    (h0 : t.wrap (tr x) = tr x) (h1 : t.wrap (tr x + 1) = tr x + 1) :
+    (h0 : t.wrap (tr x) = tr x) :
     roundM t s rs tr x e = t.wrap (round s rs tr x e) := by
   have hd : roundDownM t s tr x e = t.wrap (roundDown s tr x e) := by
     unfold roundDownM roundDown
@@ -96,7 +123,7 @@ theorem roundM_eq_wrap {t : IType} (s : Style) (rs : RStyle) (tr : K → Int) (x
     · simp only [hE, Bool.false_eq_true, if_false]
       by_cases hg : ((tr x : Int) : K) > x
       · simp only [hg, if_true]; split <;> simp [h0]
-      · simp only [hg, if_false, h1]; split <;> simp [h0, h1]
+      · simp only [hg, if_false]; split <;> simp [h0]
   have hu : roundUpM t s tr x e = t.wrap (roundUp s tr x e) := by
     unfold roundUpM roundUp
     by_cases hE : eqS s ((tr x : Int) : K) x e = true
@@ -104,8 +131,53 @@ theorem roundM_eq_wrap {t : IType} (s : Style) (rs : RStyle) (tr : K → Int) (x
     · simp only [hE, Bool.false_eq_true, if_false]
       by_cases hg : ((tr x : Int) : K) > x
       · simp only [hg, if_true]; split <;> simp [h0]
-      · simp only [hg, if_false, h1]; split <;> simp [h0, h1]
+      · simp only [hg, if_false]; split <;> simp [h0]
   cases rs <;> simp only [roundM, round, hd, hu] <;> (try split) <;> rfl
+
+/-- the result of `round` is `I(val)` or one of its two neighbours -/
+theorem round_mem (s : Style) (rs : RStyle) (tr : K → Int) (x e : K) :
+    round s rs tr x e = tr x ∨ round s rs tr x e = tr x - 1 ∨ round s rs tr x e = tr x + 1 := by
+  have hd : roundDown s tr x e = tr x ∨ roundDown s tr x e = tr x - 1 ∨ roundDown s tr x e = tr x + 1 := by
+    unfold roundDown
+    by_cases hE : eqS s ((tr x : Int) : K) x e = true
+    · simp only [hE, if_true]; exact Or.inl trivial
+    · simp only [hE, Bool.false_eq_true, if_false]
+      by_cases hg : ((tr x : Int) : K) > x
+      · simp only [hg, if_true]; split
+        · exact Or.inr (Or.inl rfl)
+        · exact Or.inl rfl
+      · simp only [hg, if_false]; split
+        · exact Or.inl rfl
+        · exact Or.inr (Or.inr rfl)
+  have hu : roundUp s tr x e = tr x ∨ roundUp s tr x e = tr x - 1 ∨ roundUp s tr x e = tr x + 1 := by
+    unfold roundUp
+    by_cases hE : eqS s ((tr x : Int) : K) x e = true
+    · simp only [hE, if_true]; exact Or.inl trivial
+    · simp only [hE, Bool.false_eq_true, if_false]
+      by_cases hg : ((tr x : Int) : K) > x
+      · simp only [hg, if_true]; split
+        · exact Or.inr (Or.inl rfl)
+        · exact Or.inl rfl
+      · simp only [hg, if_false]; split
+        · exact Or.inl rfl
+        · exact Or.inr (Or.inr rfl)
+  cases rs <;> simp only [round] <;> (try split) <;> assumption
+
+/-- without wrap-around `roundM` is `round` -/
+theorem roundM_eq {t : IType} (s : Style) (rs : RStyle) {tr : K → Int} {x : K} (e : K) (h : NoWrap t tr x) :
+    roundM t s rs tr x e = round s rs tr x e := by
+  have h0 := (h.up (tr x) (by omega) (by omega)).1
+  have hd : roundDownM t s tr x e = roundDown s tr x e := by
+    unfold roundDownM roundDown
+    by_cases hg : ((tr x : Int) : K) > x
+    · simp only [hg, if_true, h.dec hg]
+    · simp only [hg, if_false, (h.up (tr x + 1) (by omega) (by omega)).1]
+  have hu : roundUpM t s tr x e = roundUp s tr x e := by
+    unfold roundUpM roundUp
+    by_cases hg : ((tr x : Int) : K) > x
+    · simp only [hg, if_true, h.dec hg]
+    · simp only [hg, if_false, (h.up (tr x + 1) (by omega) (by omega)).1]
+  cases rs <;> simp only [roundM, round, hd, hu]
 
 /-- the value of `lower` after `if(T(lower) > val) lower--` -/
 def lowerOf (tr : K → Int) (x : K) : Int := if ((tr x : Int) : K) > x then tr x - 1 else tr x
